@@ -15,6 +15,7 @@ class _Rec:
         self.reset()
     def reset(self):
         self.obs = []          # (co_qualname, kind, name or None, value): every value observed at a position
+        self.deleg = {}        # id(frame) -> True while the frame delegates with `yield from`
         self.pending = {}      # id(frame) -> list of (kind, value) not yet matched with a return event
         self.entry = {}        # id(frame) -> dict name -> value at entry
         self.frames = []       # keep frames alive so ids are never reused
@@ -43,6 +44,12 @@ class _Rec:
 
     def act(self, kind, value=None):
         fr = sys._getframe(1)
+        if kind == "delegate":          # the frame is about to `yield from` another generator
+            self.deleg[id(fr)] = True
+            return
+        if kind == "undelegate":
+            self.deleg.pop(id(fr), None)
+            return
         self.pending.setdefault(id(fr), []).append((kind, value))
         if kind in ("yield", "return"):
             self.obs.append((fr.f_code.co_qualname, kind, None, value))
@@ -156,6 +163,12 @@ class ProgGen:
                 self.w(f"{p2}    _v = {self.v()}")
                 self.w(f"{p2}    R.act('yield', _v)")
                 self.w(f"{p2}    _s = yield _v")
+        if self.gens and not self.safe_generators and self.r.random() < 0.3:
+            e, gcalls = self.r.choice(self.gens)
+            self.w(f"{p2}    R.act('delegate')")
+            self.w(f"{p2}    _d = yield from {e}({self.argtext(gcalls)})")
+            self.w(f"{p2}    R.act('undelegate')")
+            n = max(n, 1)
         if n == 0:
             self.w(f"{p2}    if False:")
             self.w(f"{p2}        yield")
